@@ -106,12 +106,20 @@ const (
 type ExecError struct {
 	Kind ErrKind
 	Msg  string
+	// Definite: WGSL certainly makes this a shader-creation error (integer division / remainder by zero, abstract value
+	// not representable in the target type, constant shift amount >= bit width). Other ErrConst cases are conservative:
+	// the generator avoids them, but an implementation accepting them is not necessarily wrong.
+	Definite bool
 }
 
 func (e *ExecError) Error() string { return fmt.Sprintf("wref(%d): %s", e.Kind, e.Msg) }
 
 func throw(k ErrKind, format string, a ...any) {
 	panic(&ExecError{Kind: k, Msg: fmt.Sprintf(format, a...)})
+}
+
+func throwDefinite(format string, a ...any) {
+	panic(&ExecError{Kind: ErrConst, Msg: fmt.Sprintf(format, a...), Definite: true})
 }
 
 func zeroVal(t *wgen.Type) Val { return Val{T: t, S: make([]Sc, t.Leaves())} }
